@@ -1,6 +1,11 @@
 """C02 translated BODIES (round 4): Python `ast` -> Lean (lean/Mouette/Generated/C02Bodies.lean), re-extracted on every run from
 $MOUETTE_REPO/mouette/mesh/mesh_data.py and data_container.py.
 
+Round 6 adds dedicated straight-line translators: `from_arrays_program`, `load_program` (bodies with `raise` / `return`,
+compiled to `Except String _` terms chained by `Except.bind`), `dimensionality_program` (the cached property) and
+`accessors_program` (one-line `return <expr>` bodies of `__len__`, `empty`, `has_attribute`, `attributes`, `id_*`, emitted as
+abbreviations that the compiled bodies call).
+
 Whitelist (round 5): CornerDataContainer.append, DataContainer.append (data_container.py); _complete_faces_from_cells,
 _complete_edges_from_faces, _prepare_vertices, _prepare_edges (validity test, rebuild loop through a fresh DataContainer with
 attribute handles kept in two dicts, in-place normalisation), _prepare_faces, _prepare_cells (over rows tagged with their Python
@@ -257,6 +262,7 @@ class Fn:
         self.pending_types = self._first_types()
         self.hd = {}             # dict of attribute handles -> ("self",) | ("local", <container variable>)
         self.data_append = False # DataContainer.append was translated (then `X.append(v)` goes through it)
+        self.acc = False         # the one-line accessors (__len__, empty, has_attribute, id_*) were translated
 
     def err(self, msg):
         raise TranslateError(f"{self.py}: {msg}")
@@ -304,7 +310,8 @@ class Fn:
             if self.state == "cpair" and _is_self(n) and n.attr in ("_elem", "_adj"):
                 return ("c.1" if n.attr == "_elem" else "c.2"), "row"
             if n.attr == "attributes" and _is_self(n.value, "edges") and self.state == "raw":
-                return "(s.eattrs.map (·.name))", "strs"
+                if not self.acc: self.err("the container accessors were not translated")
+                return "(dcAttributes (s.edges, s.eattrs))", "strs"
             e, t = self.ex(n.value)
             if t == "vrow" and n.attr in ("ndim", "size"): return f"{self.atom(e)}.{n.attr}", "nat"
             self.err(f"unsupported attribute {ast.unparse(n)}")
@@ -387,6 +394,18 @@ class Fn:
             return self.call(n)
         self.err(f"unsupported expression {ast.unparse(n)[:80]}")
 
+    def pair(self, node):
+        """`self.<container>` as the pair (rows, attributes) the translated DataContainer accessors take; None if `node` is not one"""
+        if not (_is_self(node) and self.acc): return None
+        a = node.attr
+        if self.state == "raw":
+            if a == "edges": return "(s.edges, s.eattrs)"
+            if a in ("faces", "cells"): return f"(s.{a}, ([] : List Attr))"
+            if a == "vertices": return "(s.verts, ([] : List Attr))"
+        if self.state == "vstate" and a == "vertices": return "(s.verts, ([] : List Attr))"
+        if self.state == "rawr" and a in ("faces", "cells"): return f"(s.{a}, ([] : List Attr))"
+        return None
+
     def hattrs(self, d):
         """Lean term of the attribute list the handles stored in dict `d` point into"""
         h = self.hd.get(d)
@@ -424,7 +443,11 @@ class Fn:
         if n.keywords and txt not in ("DataContainer",): self.err(f"keyword arguments in {txt}(..)")
         if txt == "len" and len(args) == 1:
             a = args[0]
-            if _is_self(a) and a.attr in CORNERS and self.state == "raw": return f"s.{CORNERS[a.attr][0]}.length", "nat"   # CornerDataContainer.__len__
+            if _is_self(a) and a.attr in CORNERS and self.state == "raw":       # CornerDataContainer.__len__ (translated)
+                if not self.acc: self.err("the container accessors were not translated")
+                return f"cornerLen (s.{CORNERS[a.attr][0]}, s.{CORNERS[a.attr][1]})", "nat"
+            if self.pair(a) is not None: return f"dcLen {self.pair(a)}", "nat"                      # DataContainer.__len__ (translated)
+            if _is_self(a) and not self.acc: self.err("the container accessors were not translated")
             if _is_self(a) and a.attr == "vertices": return "s.verts.length", "nat"
             e, t = self.ex(a)
             if t in ("row", "rows", "edges", "vrows", "rrows"): return f"{self.atom(e)}.length", "nat"
@@ -460,6 +483,10 @@ class Fn:
             if t != "rrow": self.err(f"tolist of a {t}")
             return f"{self.atom(e)}.tolist", "rrow"
         if txt == "range" and len(args) == 1:
+            a0 = args[0]
+            if isinstance(a0, ast.Call) and ast.unparse(a0.func) == "len" and len(a0.args) == 1 and self.pair(a0.args[0]) is not None:
+                # `self.id_x` (normalised to `range(len(self.x))`): the translated property
+                return f"(id{a0.args[0].attr.capitalize()} {self.pair(a0.args[0])})", "row"
             e, t = self.ex(args[0])
             if t != "nat": self.err("range of a non-integer")
             return f"(List.range {self.atom(e)})", "row"
@@ -498,14 +525,18 @@ class Fn:
             e, t = self.ex(f.value)
             if t != "vrow": self.err("astype of a non-vertex")
             return f"astypeFloat {self.atom(e)}", "vrow"
+        if isinstance(f, ast.Attribute) and f.attr == "empty" and not args and self.pair(f.value) is not None:
+            return f"dcEmpty {self.pair(f.value)}", "bool"                                         # DataContainer.empty (translated)
         if isinstance(f, ast.Attribute) and f.attr == "empty" and not args:
+            if _is_self(f.value): self.err("the container accessors were not translated")
             e, t = self.ex(f.value)
             if t not in ("rows", "edges"): self.err(f"empty() of a {t}")
             return f"{self.atom(e)}.isEmpty", "bool"
         if isinstance(f, ast.Attribute) and f.attr == "has_attribute" and _is_self(f.value, "edges") and len(args) == 1:
             e, t = self.ex(args[0])
             if t != "str": self.err("has_attribute of a non-string")
-            return f"(hasAttr s.eattrs {e})", "bool"
+            if not self.acc: self.err("the container accessors were not translated")
+            return f"(dcHasAttr (s.edges, s.eattrs) {e})", "bool"                                   # has_attribute (translated)
         if isinstance(f, ast.Attribute) and f.attr == "get" and len(args) == 2 and isinstance(args[1], ast.Constant) and args[1].value is None:
             d, td = self.ex(f.value); k, tk = self.ex(args[0])
             if (td, tk) != ("facedict", "row"): self.err(f"get on a {td} with a {tk}")
@@ -1009,6 +1040,234 @@ def init_program(tree):
     return txt
 
 
+# ------------------------------------------------------------------------------------------------------------------
+# mesh.py: from_arrays, load  and  RawMeshData.dimensionality (property): straight-line bodies with `raise` / `return`,
+# compiled to `Except String _` terms, one stage per statement (a stage that raises ends the function)
+# ------------------------------------------------------------------------------------------------------------------
+MM_FILE = "mouette/mesh/mesh.py"
+EXC_ENUM = {"Exception": "err:Other(Exception)", "ValueError": "err:Value", "IndexError": "err:Index", "TypeError": "err:Type", "KeyError": "err:Key"}
+
+
+def _raise_enum(st):
+    if not (isinstance(st, ast.Raise) and st.exc is not None): return None
+    e = st.exc
+    name = ast.unparse(e.func) if isinstance(e, ast.Call) else ast.unparse(e)
+    return EXC_ENUM.get(name, f"err:Other({name})")
+
+
+def _shape(n, arr, k):
+    return isinstance(n, ast.Subscript) and ast.unparse(n.value) == f"{arr}.shape" and isinstance(n.slice, ast.Constant) and n.slice.value == k
+
+
+def from_arrays_program(tree):
+    fn = T.find_def(tree, "from_arrays")
+    fn = Norm().visit(copy.deepcopy(fn)); ast.fix_missing_locations(fn)
+    params = [a.arg for a in fn.args.args]
+    if len(params) != 5 or [ast.unparse(d) for d in fn.args.defaults] != ["None", "None", "None", "False"]:
+        raise TranslateError("from_arrays is not `from_arrays(V, E=None, F=None, C=None, raw=False)`")
+    pV, pE, pF, pC, praw = params
+    body = _strip(fn.body)
+    if not (body and isinstance(body[0], ast.Assign) and isinstance(body[0].targets[0], ast.Name) and ast.unparse(body[0].value) == "RawMeshData()"):
+        raise TranslateError("from_arrays does not start with `m = RawMeshData()`")
+    m = body[0].targets[0].id
+    lines = ["  let m : Raw := initFresh"]
+    nvar = None
+    cont = {"vertices": ("verts", pV), "edges": ("edges", pE), "faces": ("faces", pF), "cells": ("cells", pC)}
+    width = {pV: "w", pE: "ew"}
+
+    def cond(t, arr):
+        """a test on the array `arr`, as a Lean Bool"""
+        if isinstance(t, ast.Compare) and len(t.ops) == 1 and _shape(t.left, arr, 1) and arr in width and isinstance(t.comparators[0], ast.Constant):
+            sym = {ast.Lt: "<", ast.NotEq: "≠", ast.Eq: "=", ast.LtE: "≤"}.get(type(t.ops[0]))
+            if sym is None: raise TranslateError("from_arrays: comparison operator on shape[1]")
+            return f"decide ({width[arr]} {sym} {t.comparators[0].value})"
+        if isinstance(t, ast.Compare) and len(t.ops) == 1 and isinstance(t.left, ast.Constant) and _shape(t.comparators[0], arr, 1) and arr in width:
+            sym = {ast.Lt: "<", ast.NotEq: "≠", ast.Eq: "=", ast.LtE: "≤"}.get(type(t.ops[0]))
+            if sym is None: raise TranslateError("from_arrays: comparison operator on shape[1]")
+            return f"decide ({t.left.value} {sym} {width[arr]})"
+        # np.any(np.asarray(X) >= n_vert)   (normalised: n_vert <= np.asarray(X))
+        if isinstance(t, ast.Call) and ast.unparse(t.func) == "np.any" and len(t.args) == 1 and isinstance(t.args[0], ast.Compare) and len(t.args[0].ops) == 1:
+            c = t.args[0]
+            a, op, b = c.left, c.ops[0], c.comparators[0]
+            arrs = (f"np.asarray({arr})", f"np.array({arr})", arr)
+            if isinstance(op, ast.LtE) and ast.unparse(a) == nvar and ast.unparse(b) in arrs: kind = "GE"
+            elif isinstance(op, ast.Lt) and ast.unparse(a) == nvar and ast.unparse(b) in arrs: kind = "GT"
+            elif isinstance(op, ast.GtE) and ast.unparse(b) == nvar and ast.unparse(a) in arrs: kind = "GE"
+            elif isinstance(op, ast.Gt) and ast.unparse(b) == nvar and ast.unparse(a) in arrs: kind = "GT"
+            else: raise TranslateError(f"from_arrays: unrecognised range test {ast.unparse(t)}")
+            return ("anyEdge" if arr == pE else "anyRow") + kind + f" {arr} n"
+        raise TranslateError(f"from_arrays: unrecognised test {ast.unparse(t)[:60]}")
+
+    def iadd(st, arr):
+        if isinstance(st, ast.AugAssign) and isinstance(st.op, ast.Add) and isinstance(st.target, ast.Attribute) and ast.unparse(st.target.value) == m \
+                and st.target.attr in cont and cont[st.target.attr][1] == arr \
+                and ast.unparse(st.value) in (f"list({arr})", f"list(np.array({arr}))", f"list(np.asarray({arr}))"):
+            f = cont[st.target.attr][0]
+            return f"{{ m with {f} := m.{f} ++ {arr} }}"
+        return None
+    k = 1
+    done = set()
+    ret = None
+    while k < len(body):
+        st = body[k]; k += 1
+        # padding / width test of the vertex array
+        if isinstance(st, ast.If) and nvar is None and not done:
+            node, first = st, True
+            out = [f"  match (("]
+            chain = []
+            while True:
+                c = cond(node.test, pV)
+                b = _strip(node.body)
+                if len(b) == 1 and _raise_enum(b[0]):
+                    chain.append((c, f'.error "{_raise_enum(b[0])}"'))
+                elif len(b) == 1 and isinstance(b[0], ast.Assign) and ast.unparse(b[0].targets[0]) == pV and isinstance(b[0].value, ast.Call) \
+                        and ast.unparse(b[0].value.func) == "np.pad" and ast.unparse(b[0].value.args[0]) == pV and isinstance(b[0].value.args[1], ast.Tuple):
+                    spec = b[0].value.args[1]
+                    if len(spec.elts) != 2 or ast.unparse(spec.elts[0]).replace(" ", "") != "(0,0)" or not isinstance(spec.elts[1], ast.Tuple) or len(spec.elts[1].elts) != 2:
+                        raise TranslateError("from_arrays: np.pad specification is not ((0,0),(a,b))")
+                    def amt(e):
+                        if isinstance(e, ast.Constant) and isinstance(e.value, int): return str(e.value)
+                        if isinstance(e, ast.BinOp) and isinstance(e.op, ast.Sub) and isinstance(e.left, ast.Constant) and _shape(e.right, pV, 1): return f"({e.left.value} - w)"
+                        raise TranslateError("from_arrays: pad amount")
+                    chain.append((c, f".ok (padCols {pV} {amt(spec.elts[1].elts[0])} {amt(spec.elts[1].elts[1])})"))
+                else:
+                    raise TranslateError(f"from_arrays: unrecognised branch on the vertex array: {ast.unparse(node)[:80]}")
+                oe = _strip(node.orelse)
+                if not oe: break
+                if len(oe) == 1 and isinstance(oe[0], ast.If): node = oe[0]; continue
+                raise TranslateError("from_arrays: else branch on the vertex array")
+            term = f".ok {pV}"
+            for c, v in reversed(chain): term = f"if {c} then {v} else ({term})"
+            lines.append(f"  Except.bind (({term}) : Except String (List (List Rat))) fun {pV} =>")
+            continue
+        if isinstance(st, ast.Assign) and isinstance(st.targets[0], ast.Name) and _shape(st.value, pV, 0):
+            nvar = st.targets[0].id
+            lines.append(f"  let n := {pV}.length")
+            continue
+        r = iadd(st, pV)
+        if r is not None:
+            if nvar is None: raise TranslateError("from_arrays: vertices stored before n_vert is read")
+            lines.append(f"  let m := {r}"); done.add(pV); continue
+        if isinstance(st, ast.If) and isinstance(st.test, ast.Compare) and isinstance(st.test.ops[0], ast.IsNot) and ast.unparse(st.test.comparators[0]) == "None" \
+                and ast.unparse(st.test.left) in (pE, pF, pC) and not st.orelse:
+            arr = ast.unparse(st.test.left)
+            if pV not in done or nvar is None: raise TranslateError("from_arrays: element arrays handled before the vertices")
+            inner = []
+            stored = False
+            for b in _strip(st.body):
+                if isinstance(b, ast.If) and not b.orelse and len(_strip(b.body)) == 1 and _raise_enum(_strip(b.body)[0]) and not stored:
+                    inner.append((cond(b.test, arr), _raise_enum(_strip(b.body)[0]))); continue
+                r = iadd(b, arr)
+                if r is not None and not stored: stored = r; continue
+                raise TranslateError(f"from_arrays: unrecognised statement under `if {arr} is not None`: {ast.unparse(b)[:60]}")
+            if not stored: raise TranslateError(f"from_arrays: {arr} is never stored")
+            term = f".ok {stored}"
+            for c, e in reversed(inner): term = f'if {c} then .error "{e}" else ({term})'
+            lines.append(f"  Except.bind ((match {arr} with\n      | none => .ok m\n      | some {arr} => {term}) : Except String Raw) fun m =>")
+            done.add(arr); continue
+        if isinstance(st, ast.If) and ast.unparse(st.test) == praw and len(_strip(st.body)) == 1 and isinstance(_strip(st.body)[0], ast.Return) \
+                and ast.unparse(_strip(st.body)[0].value) == m and not st.orelse:
+            ret = "raw"; continue
+        if isinstance(st, ast.Return) and isinstance(st.value, ast.Call) and ast.unparse(st.value.func) == "_instanciate_raw_mesh_data" and ret == "raw":
+            a = st.value.args
+            if not a or ast.unparse(a[0]) != m or st.value.keywords or len(a) > 2: raise TranslateError("from_arrays: arguments of _instanciate_raw_mesh_data")
+            dim = "none" if len(a) == 1 or ast.unparse(a[1]) == "None" else f"(some {T.int_literal_table(a[1])})"
+            lines.append(f"  if raw then .ok (.inl m) else\n  Except.bind (instantiate cfg m {dim}) fun b => .ok (.inr b)")
+            ret = "done"; continue
+        raise TranslateError(f"from_arrays: unrecognised statement {ast.unparse(st)[:80]}")
+    if ret != "done" or done != {pV, pE, pF, pC}:
+        raise TranslateError("from_arrays: an array is not stored or the function does not end with `if raw: return m; return _instanciate_raw_mesh_data(m)`")
+    return ("/-- `mesh.from_arrays(V, E, F, C, raw)`: `w`, `ew` = `V.shape[1]`, `E.shape[1]`; a `raise` ends the function with the error -/\n"
+            f"def fromArrays (cfg : Cfg) (w ew : Nat) ({pV} : List (List Rat)) ({pE} : Option (List (Int × Int))) ({pF} {pC} : Option (List (List Nat))) (raw : Bool) :\n"
+            "    Except String (Raw ⊕ Built) :=\n" + "\n".join(lines) + "\n")
+
+
+def load_program(tree):
+    """`load(filename, dim, raw)`: read, `if raw: return data`, `return _instanciate_raw_mesh_data(data, dim)`"""
+    fn = T.find_def(tree, "load")
+    params = [a.arg for a in fn.args.args]
+    if len(params) != 3 or [ast.unparse(d) for d in fn.args.defaults] != ["None", "False"]:
+        raise TranslateError("load is not `load(filename, dim=None, raw=False)`")
+    fname, dim, raw = params
+    body = _strip(Norm().visit(copy.deepcopy(fn)).body)
+    if len(body) != 3: raise TranslateError("load: three statements expected")
+    a, b, c = body
+    if not (isinstance(a, ast.Assign) and isinstance(a.targets[0], ast.Name) and ast.unparse(a.value) == f"read_by_extension({fname})"):
+        raise TranslateError("load: first statement is not `data = read_by_extension(filename)`")
+    d = a.targets[0].id
+    if not (isinstance(b, ast.If) and ast.unparse(b.test) == raw and not b.orelse and len(_strip(b.body)) == 1 and isinstance(_strip(b.body)[0], ast.Return)
+            and ast.unparse(_strip(b.body)[0].value) == d):
+        raise TranslateError("load: second statement is not `if raw: return data`")
+    if not (isinstance(c, ast.Return) and isinstance(c.value, ast.Call) and ast.unparse(c.value.func) == "_instanciate_raw_mesh_data" and not c.value.keywords
+            and [ast.unparse(x) for x in c.value.args] == [d, dim]):
+        raise TranslateError("load: last statement is not `return _instanciate_raw_mesh_data(data, dim)`")
+    return ("/-- `mesh.load(filename, dim, raw)`: `read` = what `read_by_extension(filename)` returns (`none`: the reader raised) -/\n"
+            "def load (cfg : Cfg) (read : Option Raw) (dim : Option Nat) (raw : Bool) : Except String (Raw ⊕ Built) :=\n"
+            "  match read with\n  | none => .error \"err:Other(Exception)\"\n  | some data =>\n"
+            "  if raw then .ok (.inl data) else\n  Except.bind (instantiate cfg data dim) fun b => .ok (.inr b)\n")
+
+
+def dimensionality_program(tree):
+    """the property `dimensionality`: `if self._dimensionality is None: self._compute_dimensionality()` ; `return self._dimensionality`"""
+    fn = T.find_def(tree, "RawMeshData.dimensionality")
+    body = _strip(Norm().visit(copy.deepcopy(fn)).body)
+    if len(body) != 2: raise TranslateError("dimensionality: two statements expected")
+    a, b = body
+    if not (isinstance(a, ast.If) and ast.unparse(a.test) == "self._dimensionality is None" and not a.orelse and len(_strip(a.body)) == 1
+            and ast.unparse(_strip(a.body)[0]) == "self._compute_dimensionality()"):
+        raise TranslateError("dimensionality: first statement is not `if self._dimensionality is None: self._compute_dimensionality()`")
+    if not (isinstance(b, ast.Return) and ast.unparse(b.value) == "self._dimensionality"):
+        raise TranslateError("dimensionality: does not return the cached value")
+    return ("/-- the property `RawMeshData.dimensionality`: `cache` = `self._dimensionality`, `compute` = what `_compute_dimensionality` assigns;\n"
+            "returns the value and the cache afterwards -/\n"
+            "def dimensionalityProp (cache : Option Nat) (compute : Nat) : Nat × Option Nat :=\n"
+            "  let cache := if cache.isNone then some compute else cache\n  (cache.getD 0, cache)\n")
+
+
+# ------------------------------------------------------------------------------------------------------------------
+# one-line accessors of the containers and the id_* properties: `return <expr>` read against a table of shapes
+# ------------------------------------------------------------------------------------------------------------------
+def _single_return(tree, qual):
+    fn = T.find_def(tree, qual)
+    body = _strip(Norm().visit(copy.deepcopy(fn)).body)
+    if len(body) != 1 or not isinstance(body[0], ast.Return) or body[0].value is None:
+        raise TranslateError(f"{qual} is not a single `return <expr>`")
+    return ast.unparse(body[0].value), [a.arg for a in fn.args.args][1:]
+
+
+def accessors_program(md, dc):
+    out = []
+    e, _ = _single_return(dc, "DataContainer.__len__")
+    if e not in ("len(self._data)", "self._data.__len__()"): raise TranslateError(f"DataContainer.__len__ returns {e}")
+    out.append("/-- `DataContainer.__len__` -/\nabbrev dcLen {α : Type} (c : List α × List Attr) : Nat := c.1.length\n")
+    e, _ = _single_return(dc, "DataContainer.empty")
+    if e == "not self._data": out.append("/-- `DataContainer.empty` -/\nabbrev dcEmpty {α : Type} (c : List α × List Attr) : Bool := c.1.isEmpty\n")
+    elif e in ("len(self._data) == 0", "len(self) == 0"): out.append("/-- `DataContainer.empty` -/\nabbrev dcEmpty {α : Type} (c : List α × List Attr) : Bool := decide (dcLen c = 0)\n")
+    else: raise TranslateError(f"DataContainer.empty returns {e}")
+    e, ps = _single_return(dc, "_BaseDataContainer.has_attribute")
+    if len(ps) != 1 or e not in (f"{ps[0]} in self._attr", f"{ps[0]} in self._attr.keys()", f"{ps[0]} in self.attributes"):
+        raise TranslateError(f"has_attribute returns {e}")
+    out.append("/-- `_BaseDataContainer.has_attribute(name)`: membership in the dict `_attr` -/\n"
+               "abbrev dcHasAttr {α : Type} (c : List α × List Attr) (name : String) : Bool := hasAttr c.2 name\n")
+    e, _ = _single_return(dc, "_BaseDataContainer.attributes")
+    if e not in ("self._attr.keys()", "list(self._attr.keys())", "list(self._attr)"): raise TranslateError(f"attributes returns {e}")
+    out.append("/-- the property `_BaseDataContainer.attributes`: the attribute names, in insertion order -/\n"
+               "abbrev dcAttributes {α : Type} (c : List α × List Attr) : List String := c.2.map (·.name)\n")
+    e, _ = _single_return(dc, "CornerDataContainer.__len__")
+    if e not in ("len(self._elem)", "self._elem.__len__()"): raise TranslateError(f"CornerDataContainer.__len__ returns {e}")
+    out.append("/-- `CornerDataContainer.__len__` -/\nabbrev cornerLen (c : List Nat × List Nat) : Nat := c.1.length\n")
+    for prop, cont in ID_PROPS.items():
+        fn = T.find_def(md, "RawMeshData." + prop)
+        body = _strip(fn.body)       # NOT normalised: the normaliser rewrites `self.id_x` itself
+        if len(body) != 1 or not isinstance(body[0], ast.Return): raise TranslateError(f"RawMeshData.{prop} is not a single return")
+        e = ast.unparse(body[0].value)
+        if e == f"range(len(self.{cont}))": rhs = "List.range (dcLen c)"
+        else: raise TranslateError(f"RawMeshData.{prop} returns {e}, not range(len(self.{cont}))")
+        out.append(f"/-- the property `RawMeshData.{prop}` (`c` = the container `self.{cont}`) -/\n"
+                   f"abbrev id{cont.capitalize()} {{α : Type}} (c : List α × List Attr) : List Nat := {rhs}\n")
+    return "\n".join(out)
+
+
 # what is emitted for a function whose body is not recognised (so that the other bridges still compile and only this one breaks)
 STUB = {"cpair": "def {lean} (c : List Nat × List Nat) (a0 : Nat) (a1 : Nat) : List Nat × List Nat := c\n",
         "raw": "def {lean} (s : Raw) : Raw := s\n", "vstate": "def {lean} (s : VState) : VState := s\n",
@@ -1039,12 +1298,13 @@ def translate_bodies():
     def tree(f):
         if f not in trees: trees[f] = T.load(f)[0]
         return trees[f]
-    pre_ok = True
-
-    def pre():
-        _check_id_props(tree(MD_FILE)); _check_len(tree(DC_FILE))
-        return {"id_x": "range(len(self.x))", "CornerDataContainer.__len__": "len(self._elem)"}
-    rec = T.site("mesh_data.py:id_* properties, data_container.py:CornerDataContainer.__len__ (meaning of the normalised spellings)", pre)
+    rec = T.site("data_container.py: DataContainer.__len__, empty, has_attribute, attributes, CornerDataContainer.__len__; mesh_data.py: id_* properties (one-line bodies)",
+                 lambda: accessors_program(tree(MD_FILE), tree(DC_FILE)))
+    acc_ok = rec["ok"]
+    if acc_ok:
+        chunks.append(rec["detail"]); rec["detail"] = {"lean": "Generated.C02B.dcLen, dcEmpty, dcHasAttr, dcAttributes, cornerLen, idVertices, idEdges, idFaces, idCells"}
+    else:
+        chunks.append(f"/-- container accessors: NOT TRANSLATED ({rec['detail'][:200]}) -/\ndef accessorsNotTranslated : Unit := ()\n")
     sites.append(rec)
     corner_ok = False
     data_ok = [False]
@@ -1053,6 +1313,7 @@ def translate_bodies():
             fn = T.find_def(tree(f), py)
             c = Fn(py, lean, fn, state, corner_append_sig=True if corner_ok else None)
             c.data_append = data_ok[0]
+            c.acc = acc_ok
             txt = c.compile()
             return txt
         rec = T.site(f"{f.split('/')[-1]}:{py.split('.')[-1]} (body, statement by statement)", one)
@@ -1071,6 +1332,15 @@ def translate_bodies():
     else:
         chunks.append(f"/-- `RawMeshData.__init__`: NOT TRANSLATED ({rec['detail'][:200]}) -/\ndef initNotTranslated : Unit := ()\n")
     sites.append(rec)
+    for nm, f, prog, names in (("mesh.py:from_arrays (whole body: padding, range checks, storing, raw / instanciate)", MM_FILE, from_arrays_program, "fromArrays"),
+                               ("mesh.py:load (read, raw, instanciate)", MM_FILE, load_program, "load"),
+                               ("mesh_data.py:dimensionality property (cache test, compute, return)", MD_FILE, dimensionality_program, "dimensionalityProp")):
+        rec = T.site(nm, lambda f=f, prog=prog: prog(tree(f)))
+        if rec["ok"]:
+            chunks.append(rec["detail"]); rec["detail"] = {"lean": f"Generated.C02B.{names}"}
+        else:
+            chunks.append(f"/-- `{names}`: NOT TRANSLATED ({rec['detail'][:200]}) -/\ndef {names}NotTranslated : Unit := ()\n")
+        sites.append(rec)
     body = ("import Mouette.Model.PrepareSource\nimport Mouette.Lemmas.C02Rows\nset_option linter.unusedVariables false\nnamespace Mouette.Generated.C02B\n"
             "open Mouette.Prepare Mouette.PrepSrc\n\n" + "\n".join(chunks) + "\nend Mouette.Generated.C02B\n")
     T.write_generated("C02Bodies", body)
